@@ -1,10 +1,11 @@
 (* C02 — streamer address streams equal the scheduled element stream.
    Only theorem statements closed by `exact`, each followed by Print Assumptions.
    Model: coq/Model/C02Stream.v (layout resolution by unit responses, conversion of (stride, bound)
-   dims to a StridePattern with all its error branches, canonicalize, streamer word semantics), tied to
+   dims to a StridePattern with all its error branches, streamer word semantics); canonicalize is the
+   definition generated from the source (Gen/StrideCanon.v), tied to
    the code by the L1 correspondence of harness/props/c02.py (real dart-layout-resolution and
    convert-dart-to-snax-stream passes on generated ops). *)
-From Snax Require Import Base.Prelude Base.ListAux Model.C02Stream Proofs.C02StreamProofs Proofs.C02CanonProofs Model.C02Gemmx Proofs.C02GemmxProofs Proofs.C02NonnegProofs.
+From Snax Require Import Base.Prelude Base.ListAux Model.C02Stream Proofs.C02StreamProofs Proofs.C02CanonProofs Model.C02Gemmx Proofs.C02GemmxProofs Proofs.C02NonnegProofs Model.C02GenCanon Proofs.C02GenCanonProofs.
 
 (* 1. Layout resolution (repaired code: unit response minus zero response): whenever layout∘schedule is
       linear on the iteration box — any coefficients, any constant term (static offsets included) —
@@ -64,22 +65,23 @@ Theorem C02_noncontiguous_inner_refuted :
 Proof. eexists. split; [vm_compute; reflexivity|]. vm_compute. discriminate. Qed.
 Print Assumptions C02_noncontiguous_inner_refuted.
 
-(* 3. StridePattern.canonicalize (dropping bound-1 dims, merging nested dims, passing disabled 0-dims
-      through) keeps the word stream of every pattern with non-negative bounds ... *)
+(* 3. StridePattern.canonicalize — the definition GENERATED from snaxc/dialects/snax_stream.py on every
+      run (Gen/StrideCanon.v; theorem C19_stride_canon_words) keeps the word stream of every pattern with
+      non-negative bounds, for every spatial geometry ... *)
 Theorem C02_canonicalize_words :
-  forall p spats, Forall (fun b => 0 <= b) (sp_ub p) ->
-  pattern_words (sp_canonicalize p) spats = pattern_words p spats.
-Proof. exact canonicalize_words. Qed.
+  forall p q spats, Forall (fun b => 0 <= b) (sp_ub p) -> gen_canonicalize p = Some q ->
+  pattern_words q spats = pattern_words p spats.
+Proof. exact gen_canonicalize_words. Qed.
 Print Assumptions C02_canonicalize_words.
 
 (* ... so the pattern that reaches the streaming region when the accelerator does not customise it
    (snax_alu, snax_phs) still streams exactly the scheduled elements' bytes (the converter's bounds are
-   non-negative inside the Safe class: to_pattern_nonneg). *)
+   non-negative inside the Safe class: to_pattern_nonneg; canonicalize never fails). *)
 Theorem C02_final_pattern_bytes_eq :
-  forall elsize bcast spats dims p,
-  convert_okb elsize spats dims = true -> to_pattern bcast spats dims = Ok p ->
-  byte_stream TCDM (pattern_words (sp_canonicalize p) spats) = byte_stream elsize (nest dims).
-Proof. exact final_pattern_bytes_eq. Qed.
+  forall elsize bcast spats dims p q,
+  convert_okb elsize spats dims = true -> to_pattern bcast spats dims = Ok p -> gen_canonicalize p = Some q ->
+  byte_stream TCDM (pattern_words q spats) = byte_stream elsize (nest dims).
+Proof. exact gen_final_pattern_bytes_eq. Qed.
 Print Assumptions C02_final_pattern_bytes_eq.
 
 (* 4. gemmx set_stride_patterns (all five shapes: matmul i32/i8, gemm i32/i8, rescale-only): five slots;
